@@ -21,6 +21,7 @@ RULE = (
     "first, then the intended one - so the verdict must follow the rule registered last. combo: combo_check over lists of 1-3 x 1-2 positional values and 1-3 x "
     "1-2 keyword values of a two-argument primitive whose VJP or JVP rule is wrong (factor 1.1 or sign) for exactly one drawn combination "
     "(or none), 20 trials, same binomial decision: every listed combination must actually be checked."
+    ' Families skew (antisymmetric linear map) and reduce (reductions with unreduced tangents); Python-int points (refusal allowed, acceptance of a wrong rule is not).'
 )
 
 FAMILIES = ["elementwise", "matmul", "broadcast", "complex", "container", "scalar", "dict_complex", "skew", "reduce"]
